@@ -87,6 +87,7 @@ type SigSpec struct {
 	Trailer  string // x-amz-checksum-… name for trailer modes ("" = none declared)
 	Chunks   []int  // chunk sizes for streaming modes (the rest goes into a last chunk)
 	AltFrame bool   // put a blank line between the zero chunk and the trailer section
+	Presign  bool   // credentials in the query string (presigned URL), with whatever payload Mode says
 	Expires  int    // presign: X-Amz-Expires
 	Cred     SigCred
 	Region   string
@@ -330,8 +331,24 @@ var sdkSigner = v4.NewSigner(func(o *v4.SignerOptions) {
 	o.DisableURIPathEscaping = true
 })
 
-// Build assembles the http.Request as the S3 client does, signs it with the real SDK signer,
-// serialises it with http.Request.Write (what the Go transport puts on the wire) and returns the text.
+// IsPresigned: the credentials travel in the query string (presigned URL). ModePresign is the
+// S3 presign client's own shape (UNSIGNED-PAYLOAD, no payload header); Presign = true combines the
+// query-string carrier with any payload mode, including the aws-chunked streaming modes.
+func (s *SigSpec) IsPresigned() bool { return s.Presign || s.Mode == ModePresign }
+
+// Label names carrier and payload mode for traces and statistics.
+func (s *SigSpec) Label() string {
+	if s.Presign && s.Mode != ModePresign {
+		return "presign+" + s.Mode
+	}
+	return s.Mode
+}
+
+// Build assembles the http.Request as the S3 client does, signs it with the real SDK signer
+// (SignHTTP, or PresignHTTP for the query-string carrier), serialises it with http.Request.Write
+// (what the Go transport puts on the wire) and returns the text. For the streaming modes the
+// body is framed by ChunkEnc, the chunk chain seeded by the request's own signature: the
+// Authorization header's, or X-Amz-Signature of a presigned URL.
 func (s *SigSpec) Build() (*Signed, error) {
 	path, rawPath := s.paths()
 	u := &url.URL{Scheme: "http", Host: s.Host, Path: path, RawPath: rawPath}
@@ -355,50 +372,12 @@ func (s *SigSpec) Build() (*Signed, error) {
 		SignKey: DeriveSigningKey(s.Cred.SK, date, s.Region, "s3")}
 	ph := ContentSHA256For(s.Mode, s.Body)
 	ctx := context.Background()
+	presigned := s.IsPresigned()
 
-	if s.Mode == ModePresign {
-		q := req.URL.Query()
-		q.Set("X-Amz-Expires", strconv.Itoa(s.Expires))
-		req.URL.RawQuery = q.Encode()
-		req.ContentLength = int64(len(s.Body))
-		signedURL, signedHeaders, err := sdkSigner.PresignHTTP(ctx, cred, req, ph, "s3", s.Region, s.SignTime)
-		if err != nil {
-			return nil, err
-		}
-		su, err := url.Parse(signedURL)
-		if err != nil {
-			return nil, err
-		}
-		// the party holding the URL sends exactly the signed headers (minus host/length, which
-		// the transport writes itself)
-		// … including the Host value the SDK signed (it strips a default port)
-		host := s.Host
-		if h := signedHeaders.Get("Host"); h != "" {
-			host = h
-		}
-		r2 := &http.Request{Method: s.Method, URL: su, Host: host, Header: http.Header{}, Proto: "HTTP/1.1", ProtoMajor: 1, ProtoMinor: 1}
-		for k, vs := range signedHeaders {
-			if k == "Host" || k == "Content-Length" {
-				continue
-			}
-			for _, v := range vs {
-				r2.Header.Add(k, v)
-			}
-		}
-		r2.ContentLength = int64(len(s.Body))
-		if len(s.Body) > 0 {
-			r2.Body = io.NopCloser(bytes.NewReader(s.Body))
-		}
-		var buf bytes.Buffer
-		if err := r2.Write(&buf); err != nil {
-			return nil, err
-		}
-		out.Wire = parseWire(buf.Bytes())
-		out.SeedSig = su.Query().Get("X-Amz-Signature")
-		return out, nil
+	// payload-mode headers (a presigned URL of the S3 presign client carries none of them)
+	if !presigned || (s.Mode != ModePresign && s.Mode != ModeHash) {
+		req.Header.Set("X-Amz-Content-Sha256", ph)
 	}
-
-	req.Header.Set("X-Amz-Content-Sha256", ph)
 	var enc *ChunkEnc
 	if IsStreaming(s.Mode) {
 		enc = &ChunkEnc{Signed: s.Mode == ModeStream || s.Mode == ModeStreamTrailer,
@@ -420,25 +399,64 @@ func (s *SigSpec) Build() (*Signed, error) {
 	} else {
 		req.ContentLength = int64(len(s.Body))
 	}
-	if err := sdkSigner.SignHTTP(ctx, cred, req, ph, "s3", s.Region, s.SignTime); err != nil {
-		return nil, err
-	}
-	auth := req.Header.Get("Authorization")
-	if i := strings.LastIndex(auth, "Signature="); i >= 0 {
-		out.SeedSig = auth[i+len("Signature="):]
+
+	send := req
+	if presigned {
+		q := req.URL.Query()
+		q.Set("X-Amz-Expires", strconv.Itoa(s.Expires))
+		req.URL.RawQuery = q.Encode()
+		// S3 verifies a presigned request against UNSIGNED-PAYLOAD whatever the body is.
+		signedURL, signedHeaders, err := sdkSigner.PresignHTTP(ctx, cred, req, "UNSIGNED-PAYLOAD", "s3", s.Region, s.SignTime,
+			func(o *v4.SignerOptions) {
+				// the streaming headers (x-amz-decoded-content-length, x-amz-trailer) are read by the
+				// server as headers: keep them headers instead of hoisting them into the query
+				o.DisableHeaderHoisting = enc != nil
+			})
+		if err != nil {
+			return nil, err
+		}
+		su, err := url.Parse(signedURL)
+		if err != nil {
+			return nil, err
+		}
+		// the party holding the URL sends exactly the signed headers (minus host/length, which the
+		// transport writes itself), including the Host value the SDK signed (it strips a default port)
+		host := s.Host
+		if h := signedHeaders.Get("Host"); h != "" {
+			host = h
+		}
+		send = &http.Request{Method: s.Method, URL: su, Host: host, Header: http.Header{}, Proto: "HTTP/1.1", ProtoMajor: 1, ProtoMinor: 1}
+		for k, vs := range signedHeaders {
+			if k == "Host" || k == "Content-Length" {
+				continue
+			}
+			for _, v := range vs {
+				send.Header.Add(k, v)
+			}
+		}
+		out.SeedSig = su.Query().Get("X-Amz-Signature")
+	} else {
+		if err := sdkSigner.SignHTTP(ctx, cred, req, ph, "s3", s.Region, s.SignTime); err != nil {
+			return nil, err
+		}
+		auth := req.Header.Get("Authorization")
+		if i := strings.LastIndex(auth, "Signature="); i >= 0 {
+			out.SeedSig = auth[i+len("Signature="):]
+		}
 	}
 	body := s.Body
 	if enc != nil {
 		enc.SeedSig = out.SeedSig
 		body = enc.Encode(s.Body)
 	}
+	send.ContentLength = int64(len(body))
 	if len(body) > 0 {
-		req.Body = io.NopCloser(bytes.NewReader(body))
+		send.Body = io.NopCloser(bytes.NewReader(body))
 	} else {
-		req.Body = http.NoBody
+		send.Body = http.NoBody
 	}
 	var buf bytes.Buffer
-	if err := req.Write(&buf); err != nil {
+	if err := send.Write(&buf); err != nil {
 		return nil, err
 	}
 	out.Wire = parseWire(buf.Bytes())
